@@ -11,7 +11,6 @@ import (
 
 func init() { Monitors["C05"] = runC05 }
 
-const kf1Key = "KF1-IsAborted-true-without-abort-in-deep-chain"
 
 // hb is the behaviour of one handler of a C05 chain.
 type hb struct {
@@ -69,7 +68,10 @@ func (h hb) handler() rux.HandlerFunc {
 		if h.SetStatusFirst != 0 {
 			c.SetStatus(h.SetStatusFirst)
 		}
-		if h.Ab == nil {
+		if h.Ab != nil && c.Req.Header.Get("X-NoAbort") != "" {
+			// follow-up request on the same router: the aborter behaves like a plain middleware
+			c.Next()
+		} else if h.Ab == nil {
 			for i := 0; i < h.Nexts; i++ {
 				c.Next()
 			}
@@ -162,83 +164,6 @@ func (s *specRun) run(h hb) {
 	s.ev = append(s.ev, "leave("+h.ID+")")
 }
 
-// ----- cursor model (used only to attribute known finding KF1) -----
-//
-// The cursor stops at len(chain) when the chain has completed and the abort
-// sentinel is 63: with exactly 63 handlers "completed" and "aborted" coincide;
-// IsAborted() is "cursor >= 63".
-
-type cursorRun struct {
-	chain []hb
-	idx   int
-	ev    []string
-}
-
-func (s *cursorRun) Next() {
-	n := len(s.chain)
-	if s.idx >= n {
-		return
-	}
-	s.idx++
-	for ; s.idx < n; s.idx++ {
-		s.run(s.chain[s.idx])
-		if s.idx >= n {
-			return
-		}
-	}
-}
-
-func (s *cursorRun) ia(h hb, phase string) {
-	s.ev = append(s.ev, fmt.Sprintf("ia(%s,%s)=%v", h.ID, phase, s.idx >= 63))
-}
-
-func (s *cursorRun) run(h hb) {
-	s.ev = append(s.ev, "enter("+h.ID+")")
-	s.ia(h, "entry")
-	if h.Ab == nil {
-		for i := 0; i < h.Nexts; i++ {
-			s.Next()
-		}
-	} else {
-		if h.Ab.When == "after" {
-			s.Next()
-		}
-		s.ia(h, "pre")
-		s.idx = 63
-		s.ev = append(s.ev, "abort("+h.ID+")")
-		s.ia(h, "post")
-		if h.Ab.When == "before" {
-			s.Next()
-		}
-		if h.Ab.ExtraNext {
-			s.Next()
-		}
-	}
-	s.ia(h, "leave")
-	s.ev = append(s.ev, "leave("+h.ID+")")
-}
-
-// onlyKF1 reports whether got differs from want only in IsAborted samples that
-// read true although the specification says false.
-func onlyKF1(want, got []string) bool {
-	if len(want) != len(got) {
-		return false
-	}
-	diff := 0
-	for i := range want {
-		if want[i] == got[i] {
-			continue
-		}
-		if strings.HasPrefix(want[i], "ia(") && strings.HasSuffix(want[i], "=false") &&
-			got[i] == strings.TrimSuffix(want[i], "false")+"true" {
-			diff++
-			continue
-		}
-		return false
-	}
-	return diff > 0
-}
-
 // c05Chain describes one case.
 type c05Chain struct {
 	Chain         []hb
@@ -293,10 +218,9 @@ func (cc c05Chain) build() *rux.Router {
 }
 
 func runC05(e *Env) {
-	e.Rule = "chains global+group+route middleware+main built through Use (one or several calls), Group middleware, variadic route middleware and Route.Use; exhaustive: every chain length 1..L (L=7 quick, 9 thorough) x every position of the aborting handler x {Abort, AbortThen, AbortWithStatus(code), AbortWithStatus(code,msg), code incl. 200, optionally after the first handler recorded another status without committing} x abort before/after/without its own Next() x extra Next() after the abort x every subset of the other handlers calling/not calling Next() x body byte written before the abort or not; sampled: long chains with totals around 31..33 and 61..63 and random behaviours (incl. double Next). Observed: enter/leave/abort events and IsAborted() sampled at entry, before/after the abort call and at leave of every handler, status/body at the recording writer. Oracle: specification-level interpreter of Next/Abort. Non-trivial: every case (each has an abort); distinct by chain description."
+	e.Rule = "chains global+group+route middleware+main built through Use (one or several calls), Group middleware, variadic route middleware and Route.Use; exhaustive: every chain length 1..L (L=7 quick, 9 thorough) x every position of the aborting handler x {Abort, AbortThen, AbortWithStatus(code), AbortWithStatus(code,msg), code incl. 200, optionally after the first handler recorded another status without committing} x abort before/after/without its own Next() x extra Next() after the abort x every subset of the other handlers calling/not calling Next() x body byte written before the abort or not; sampled: long chains with totals around 31..33, 61..66 and 126..140 (beyond 63 through global middleware) and random behaviours (incl. double Next); after every aborted request a second request on the same router in which nobody aborts. Observed: enter/leave/abort events and IsAborted() sampled at entry, before/after the abort call and at leave of every handler, status/body at the recording writer. Oracle: specification-level interpreter of Next/Abort. Non-trivial: every case (each has an abort); distinct by chain description."
 	e.Assumptions = []string{
-		"total chain length <= 63 (the largest the registration limit admits without global middleware)",
-		"IsAborted()==true without an abort is attributed to known finding KF1 only if the observed trace equals the cursor model's trace and differs from the specification only in such samples",
+		"a route's own chain (group + route middleware + main handler) stays within the registration limit of 63; global middleware, which that limit does not count, makes executed chains of up to 140 entries",
 	}
 	e.Exhaustive = true
 	maxL := int(e.N(7, 10))
@@ -373,7 +297,7 @@ func runC05(e *Env) {
 	// sampled long chains
 	e.RunCases("long-chains", e.N(3000, 2000000), 0, func(t *T) {
 		r := t.R
-		total := pick(r, []int{9, 12, 20, 31, 32, 33, 40, 50, 61, 62, 63, 63})
+		total := pick(r, []int{9, 12, 20, 31, 32, 33, 40, 50, 61, 62, 63, 63, 63, 64, 65, 66, 80, 100, 126, 127, 128, 129, 140})
 		cc := c05Chain{}
 		j := r.IntN(total)
 		if chance(r, 1, 4) {
@@ -479,15 +403,8 @@ func c05Check(t *T, cc c05Chain) {
 	got := rec.Events
 	t.Tracef("status %d, writer calls [%s], trace: %s", rec.Status(), rec.CallLog(), strings.Join(got, " "))
 	if !eventsEqual(spec.ev, got) {
-		cur := &cursorRun{chain: cc.Chain, idx: -1}
-		cur.Next()
-		if eventsEqual(cur.ev, got) && onlyKF1(spec.ev, got) {
-			t.Count("kf1.observed", 1)
-			t.Fail(kf1Key, "chain of %d handlers: IsAborted() reads true although nobody aborted (cursor model: with 63 handlers the end-of-chain index equals the abort sentinel 63)", len(cc.Chain))
-		} else {
-			t.Fail(c05Classify(spec.ev, got), "chain %v:\n expected trace: %s\n observed trace: %s", cc.describe(), strings.Join(spec.ev, " "), strings.Join(got, " "))
-			return
-		}
+		t.Fail(c05Classify(spec.ev, got), "chain %v:\n expected trace: %s\n observed trace: %s", cc.describe(), strings.Join(spec.ev, " "), strings.Join(got, " "))
+		return
 	}
 
 	// response status clause
@@ -524,6 +441,31 @@ func c05Check(t *T, cc c05Chain) {
 		t.Fail("recorded-status-lost", "chain %v: the first handler recorded status %d and nobody changed it; the writer saw: %s", cc.describe(), ab.PreStatus, rec.CallLog())
 	} else if rec.NumWH() != 1 {
 		t.Fail("header-commits", "chain %v: %d WriteHeader calls reached the writer (%s)", cc.describe(), rec.NumWH(), rec.CallLog())
+	}
+
+	// A later request on the same router (and the same pooled context) in which
+	// nobody aborts: the abort of the first request must not be visible in it.
+	if ab != nil {
+		chain2 := make([]hb, len(cc.Chain))
+		for i, h := range cc.Chain {
+			if h.Ab != nil {
+				h = hb{ID: h.ID, Nexts: 1, SetStatusFirst: h.SetStatusFirst}
+			}
+			chain2[i] = h
+		}
+		spec2 := &specRun{chain: chain2}
+		spec2.Next()
+		req2 := NewReq("GET", "/g/x")
+		req2.Header.Set("X-NoAbort", "1")
+		rec2, pv2, panicked2 := Serve(router, req2)
+		if panicked2 {
+			t.Fail("servehttp-panic", "follow-up request: ServeHTTP panicked: %v", pv2)
+			return
+		}
+		t.Count("followup.request_after_abort", 1)
+		if !eventsEqual(spec2.ev, rec2.Events) {
+			t.Fail("abort-leaks-into-next-request:"+c05Classify(spec2.ev, rec2.Events), "chain %v: after a request that aborted, a second request on the same router in which nobody aborts:\n expected trace: %s\n observed trace: %s", cc.describe(), strings.Join(spec2.ev, " "), strings.Join(rec2.Events, " "))
+		}
 	}
 }
 
